@@ -60,6 +60,13 @@ package atree
 //@   ensures enc != nil && fresh(enc) && enc.Writer == w && encWF(enc) && enc._inlinedExtraData == nil
 //@   modifies alloc
 
+//@ # the buffer pool only ever receives emptied buffers: this is what the assumption on getBuffer below rests on
+//@ func putBuffer(e)  serves C06
+//@   requires e != nil
+//@   before[C06] sync.Pool.Put: arg_x == iface(e) && wc[iface(e)] == 0
+//@   ensures[C06] wc == upd(old(wc), iface(e), 0)
+//@   modifies ghost.wc, ghost.wb
+
 //@ func getBuffer() (b)  serves C06
 //@   trusted "the pool hands out reset buffers (putBuffer resets before returning a buffer to the pool; New creates an empty one)"
 //@   ensures b != nil && wc[iface(b)] == 0 && (forall e *Encoder :: {e.Writer} allocated(e) ==> e.Writer != iface(b))
@@ -164,6 +171,17 @@ package atree
 //@   requires encWF(enc) && enc.encMode != nil && !a.inlined && wfADS(a) && len(a.elements) <= 65535
 //@   assume a.extraData != nil ==> a.next == SlabIDUndefined because "tree invariant: a root leaf has no sibling (C01)"
 //@   ensures[C06] err == nil ==> written(enc) == a.header.size - ite(a.extraData == nil && a.next == SlabIDUndefined, 16, 0)
+//@   modifies heap, ghost.wc, ghost.wb, ghost.xbytes, alloc
+
+//@ # large-value slab: 2 (head) + the value; reported and written
+//@ func (s *StorableSlab) ByteSize() (n)  serves C06
+//@   requires s.storable != nil && bs(s.storable) <= 4294967293
+//@   ensures[C06] n == 2 + bs(s.storable)
+//@   pure
+
+//@ func (s *StorableSlab) Encode@bytes(enc) (err)  serves C06
+//@   requires encWF(enc) && s.storable != nil
+//@   ensures[C06] err == nil ==> written(enc) == 2 + bs(s.storable)
 //@   modifies heap, ghost.wc, ghost.wb, ghost.xbytes, alloc
 
 //@ extern bytes.Buffer.Reset()
